@@ -19,6 +19,7 @@ import IcyVerif.Drv.Rect
 import IcyVerif.Drv.Rip
 import IcyVerif.Drv.Rows
 import IcyVerif.Drv.Sauce
+import IcyVerif.Drv.SauceLoad
 import IcyVerif.Drv.SauceUni
 import IcyVerif.Drv.Sixel
 import IcyVerif.Drv.SixelLoad
@@ -54,6 +55,7 @@ def dispatch (line : String) : String :=
   | "rip" :: rest => Rip.handle rest
   | "rows" :: rest => Rows.handle rest
   | "sauce" :: rest => Sauce.handle rest
+  | "sauceload" :: rest => SauceLoad.handle rest
   | "sauceuni" :: rest => SauceUni.handle rest
   | "sixel" :: rest => Sixel.handle rest
   | "sixelload" :: rest => SixelLoad.handle rest
